@@ -189,7 +189,7 @@ def run(rep, tier, prop, names, tol, full_order=8, variants=1):
                 return None
             inst = "%s ray %d" % (nm, variant)
             try:
-                paths, tstar = rays.evaluate(ff, cell_var, inputs)
+                paths, tstar = rays.evaluate(ff, cell_var, inputs, max_paths=512)
                 results = []
                 for path in paths:
                     if hess:
